@@ -115,8 +115,10 @@ public:
     }
   }
 
+  // Note: the error is taken by value because it may live inside the
+  // completion operation state, which is destroyed before it is forwarded.
   template <typename Error>
-  void set_error(Error&& error) && noexcept {
+  void set_error(Error error) && noexcept {
     auto* const op = op_;
 
     using completion_value_op_t =
@@ -303,9 +305,11 @@ public:
     unifex::set_done(static_cast<Receiver&&>(op->receiver_));
   }
 
+  // Note: the error is taken by value because it may live inside the
+  // completion operation state, which is destroyed before it is forwarded.
   template(typename Error)                  //
       (requires receiver<Receiver, Error>)  //
-      void set_error(Error&& error) && noexcept {
+      void set_error(Error error) && noexcept {
     auto* const op = op_;
     unifex::deactivate_union_member(op->completionDoneOp_);
     unifex::set_error(
